@@ -33,6 +33,8 @@ W_PREFIXED = nd("{urn:x}foo", [["k", "p:bar"]], None, [], None, [["p", "urn:x"]]
 W_NIL = nd("foo", [[L.XSI_NIL, "true"]], None, [], None, [])
 TYPED = nd("{urn:a}foo", [[L.XSI_TYPE, "xs:string"], ["k", "v"]], "s", [], "tail")
 TYPED_INT = nd("{urn:a}foo", [[L.XSI_TYPE, "xs:int"]], "5", [], None)
+QN_LOCAL = nd("y", [[L.XSI_TYPE, "xs:QName"]], "w:foo", [], None, L.NSMAP + [["w", "urn:inner"]])
+QN_DEFAULT = nd("{urn:a}y", [[L.XSI_TYPE, "xs:QName"]], "foo", [], None, L.NSMAP + [[None, "urn:dflt"]])
 TYPED_BOOL = nd("{urn:a}z", [[L.XSI_TYPE, "xs:boolean"]], "true", [], None)
 
 
@@ -54,9 +56,12 @@ def main():
         a = P.anyrt_case(rng, kind, "##any", False, pre, trees)
         cases.append((f"anyrt-{name}", "c11.anyrt", a))
     for name, kind, forest in [("typed-attrs-tail", "mixed", [TYPED]), ("typed-int", "list", [TYPED_INT]),
-                               ("choice-typed", "choice", [TYPED_BOOL]), ("single-three", "single", [EX, W_PREFIXED, EX])]:
+                               ("choice-typed", "choice", [TYPED_BOOL]), ("single-three", "single", [EX, W_PREFIXED, EX]),
+                               ("qname-local-rebound", "list", [QN_LOCAL]), ("qname-default", "mixed", [QN_DEFAULT])]:
         u, desc, ctx = L.host(kind, "##any", None)
         doc = L.host_doc(kind, None, forest)
+        if name == "qname-local-rebound":
+            L.bind_outer(doc, "w", "urn:outer")
         info = {"kind": kind, "nsmode": "##any", "target": None}
         cases.append((f"parse-{name}", "bind.parse", {"ctx": ctx, "tree": doc, "clazz": "Root", "config": {}, "desc": desc,
                                                        "_kind": kind + "/##any", "_info": info}))
